@@ -13,7 +13,7 @@ from ..core import rule
 from ..engine import cfg as cfgmod, flow
 from ..engine import pattern as P
 from ..engine.facts import dotted, const, src, walk_func, enclosing_stmt, ancestors
-from .common import calls, stmt_nodes, norm_successors, contains, pn, access_paths
+from .common import calls, stmt_nodes, norm_successors, contains, pn, access_paths, assigned_from
 
 MOVES = ("shutil.move", "os.replace", "os.rename")
 
@@ -159,19 +159,21 @@ def staleness(ctx):
                 good, path = g.must_pass(s, lnodes, exits=[g.exit], kinds=("n",))
                 ctx.check(good, "regen-then-load", db.where(r), "after regenerating, a path uses the previously loaded module without reloading (%s)" % g.fmt_path(path), "load_module follows on every normal path")
     texts = [src(i.test) for i, _ in conds]
+    pathp, filep = pn(fn, 1), pn(fn, 2)
+    fmv = {t.id for n in walk_func(fn) if isinstance(n, ast.Assign) and ("stat(%s)" % filep) in src(n.value) for t in n.targets if isinstance(t, ast.Name)}
     # condition 1: missing or older
     have_missing = have_older = have_magic = False
     for i, r in conds:
         for c in ast.walk(i.test):
-            if isinstance(c, ast.UnaryOp) and isinstance(c.op, ast.Not) and "exists(path)" in src(c.operand).replace("os.path.", ""):
+            if isinstance(c, ast.UnaryOp) and isinstance(c.op, ast.Not) and ("exists(%s)" % pathp) in src(c.operand).replace("os.path.", ""):
                 have_missing = True
             if isinstance(c, ast.Compare) and len(c.ops) == 1:
                 l, r_ = src(c.left), src(c.comparators[0])
                 op = type(c.ops[0]).__name__
-                if "stat(path)" in l.replace("os.", "") and "filemtime" in r_:
+                if ("stat(%s)" % pathp) in l.replace("os.", "") and r_ in fmv:
                     ctx.check(op in ("Lt", "LtE"), "older.polarity", db.where(c), "regeneration condition is module_mtime %s source_mtime: a module older than its source is reused" % op, "module mtime %s source mtime" % op)
                     have_older = True
-                elif "filemtime" in l and "stat(path)" in r_.replace("os.", ""):
+                elif l in fmv and ("stat(%s)" % pathp) in r_.replace("os.", ""):
                     ctx.check(op in ("Gt", "GtE"), "older.polarity", db.where(c), "regeneration condition has the wrong polarity (%s)" % op, "source mtime %s module mtime" % op)
                     have_older = True
                 if "_magic_number" in l + r_:
@@ -181,17 +183,17 @@ def staleness(ctx):
     ctx.check(have_older, "cond.older", db.where(fn), "module-older-than-source is not a regeneration condition (%s)" % texts, "module mtime < source mtime")
     ctx.check(have_magic, "cond.magic", db.where(fn), "generator-version (magic number) mismatch is not a regeneration condition (%s)" % texts, "magic mismatch")
     # filemtime is the source's mtime
-    fm = [n for n in walk_func(fn) if isinstance(n, ast.Assign) and any(isinstance(t, ast.Name) and t.id == "filemtime" for t in n.targets)]
-    ctx.check(bool(fm) and "stat(filename)" in src(fm[0].value).replace("os.", "") and "ST_MTIME" in src(fm[0].value).upper(), "filemtime", db.where(fm[0]) if fm else db.where(fn), "filemtime is not os.stat(filename)[ST_MTIME]", "source mtime from os.stat(filename)")
+    fm = [n for n in walk_func(fn) if isinstance(n, ast.Assign) and any(isinstance(t, ast.Name) and t.id in fmv for t in n.targets)]
+    ctx.check(bool(fm) and ("stat(%s)" % filep) in src(fm[0].value).replace("os.", "") and "ST_MTIME" in src(fm[0].value).upper(), "filemtime", db.where(fm[0]) if fm else db.where(fn), "filemtime is not os.stat(filename)[ST_MTIME]", "source mtime from os.stat(filename)")
     # regenerate from current source: data read from filename right before
     for r in regen:
-        ctx.check(len(r.args) >= 4 and src(r.args[2]) == "filename" and src(r.args[3]) == "path", "regen.args", db.where(r), "regeneration call is %s" % src(r), "writes `path` from `filename`")
+        ctx.check(len(r.args) >= 4 and src(r.args[2]) == filep and src(r.args[3]) == pathp, "regen.args", db.where(r), "regeneration call is %s" % src(r), "writes `path` from `filename`")
         dn = r.args[1]
         rr = flow.Reaching(fn)
         ok = False
         if isinstance(dn, ast.Name):
             defs = rr.defs_at(enclosing_stmt(r), dn.id)
-            ok = bool(defs) and all(isinstance(d, ast.Assign) and "read_file(filename)" in src(d.value) for d in defs)
+            ok = bool(defs) and all(isinstance(d, ast.Assign) and ("read_file(%s)" % filep) in src(d.value) for d in defs)
         ctx.check(ok, "regen.source", db.where(r), "regenerated text is not freshly read from filename", "text = util.read_file(filename)")
     # the magic number emitted is the one compared
     cg = db.mod("codegen")
@@ -199,9 +201,10 @@ def staleness(ctx):
     ctx.check(bool(emitted) and all(src(e.right) == "MAGIC_NUMBER" for e in emitted), "magic.emitted", db.where(emitted[0]) if emitted else "mako/codegen.py", "emitted _magic_number is not codegen.MAGIC_NUMBER", "emits _magic_number = %r % MAGIC_NUMBER")
     # the loaded module is what is returned / registered
     rets = [n for n in walk_func(fn) if isinstance(n, ast.Return)]
-    ctx.check(all(src(r.value) == "module" for r in rets) and rets, "returns-module", db.where(fn), "returns %s" % [src(r.value) for r in rets], "returns the loaded module")
+    mvs = assigned_from(fn, "compat.load_module(...)") | assigned_from(fn, "_compile_text(...)#1")
+    ctx.check(all(src(r.value) in mvs for r in rets) and rets, "returns-module", db.where(fn), "returns %s" % [src(r.value) for r in rets], "returns the loaded module")
     for l in loads:
-        ctx.check(len(l.args) == 2 and src(l.args[1]) == "path", "load.path", db.where(l), "loads %s" % src(l), "loads `path`")
+        ctx.check(len(l.args) == 2 and src(l.args[1]) == pathp, "load.path", db.where(l), "loads %s" % src(l), "loads `path`")
 
 
 @rule("C15.writer-contract", min_instances=3)
@@ -210,12 +213,14 @@ def writer_contract(ctx):
     db = ctx.db
     fn = db.func("template._compile_module_file")
     g = cfgmod.function_cfg(fn)
-    mw = calls(fn, "module_writer")
+    mwp = pn(fn, 4)
+    srcv = assigned_from(fn, "_compile(...)#0")
+    mw = calls(fn, mwp)
     ctx.require(mw, "_compile_module_file never calls module_writer (anchor)")
     c = mw[0]
-    ctx.check(len(c.args) == 2 and src(c.args[0]) == "source" and src(c.args[1]) == "outputpath" and not c.keywords, "args", db.where(c), "module_writer called as %s" % src(c), "module_writer(source, outputpath)")
+    ctx.check(len(c.args) == 2 and src(c.args[0]) in srcv and src(c.args[1]) == pn(fn, 3) and not c.keywords, "args", db.where(c), "module_writer called as %s" % src(c), "module_writer(source, outputpath)")
     ifs = [a for a in ancestors(c) if isinstance(a, ast.If)]
-    ctx.check(bool(ifs) and src(ifs[0].test) == "module_writer" and any(contains(b, c) for b in ifs[0].body), "guard", db.where(c), "module_writer call not under `if module_writer:`", "under if module_writer")
+    ctx.check(bool(ifs) and src(ifs[0].test) == mwp and any(contains(b, c) for b in ifs[0].body), "guard", db.where(c), "module_writer call not under `if module_writer:`", "under if module_writer")
     if ifs:
         branch = ifs[0].body
         others = [n for s in branch for n in ast.walk(s) if isinstance(n, ast.Call) and n is not c and (dotted(n.func) in WRITE_PRIMS or _is_write_open(n))]
@@ -223,7 +228,7 @@ def writer_contract(ctx):
         default = [n for s in ifs[0].orelse for n in ast.walk(s) if isinstance(n, ast.Call) and dotted(n.func) in MOVES]
         ctx.check(bool(default), "default-else", db.where(ifs[0]), "the default publisher is not the else-branch of `if module_writer`", "default writer in else")
     # bytes: source encoded before
-    enc = [n for n in walk_func(fn) if isinstance(n, ast.Assign) and isinstance(n.value, ast.Call) and isinstance(n.value.func, ast.Attribute) and n.value.func.attr == "encode" and src(n.targets[0]) == "source"]
+    enc = [n for n in walk_func(fn) if isinstance(n, ast.Assign) and isinstance(n.value, ast.Call) and isinstance(n.value.func, ast.Attribute) and n.value.func.attr == "encode" and src(n.targets[0]) in srcv and src(n.value.func.value) in srcv]
     ctx.check(bool(enc) and g.stmt_dominates(enclosing_stmt(enc[0]) if not isinstance(getattr(enc[0], "_parent", None), ast.If) else enc[0]._parent, enclosing_stmt(c)), "bytes", db.where(enc[0]) if enc else db.where(fn),
               "source is not encoded to bytes before being handed to the writer", "source.encode(...) precedes the writer")
 
